@@ -27,8 +27,11 @@ Definition gz_member_roundtrip_statement : Prop :=
   forall h body payload rest, ghdr_ok h -> body_for body payload ->
     gz_read false (gz_member h body payload ++ rest) = mkgres payload CEOF rest [h] false.
 
+(* (for lists of bytes; `byte` is N in this development, and the first version of this and of the
+   two *_eof_checked statements below, without the byte premise, was refuted in Coq: see the top of
+   proofs/ContainersProofs.v) *)
 Definition checksum_width_statement : Prop :=
-  forall l, crc32 l < 4294967296 /\ adler32 l < 4294967296.
+  forall l, bytes_lt256 l -> crc32 l < 4294967296 /\ adler32 l < 4294967296.
 
 Definition zl_roundtrip_statement : Prop :=
   inflate_mono_statement ->
@@ -73,11 +76,11 @@ Inductive gz_stream : bool -> list byte -> list byte -> list byte -> Prop :=
     gz_stream true l (out (inflate [] rest) ++ p) left.
 
 Definition gz_eof_checked_statement : Prop :=
-  forall multi l, g_err (gz_read multi l) = CEOF -> g_at_ctor (gz_read multi l) = false ->
+  forall multi l, bytes_lt256 l -> g_err (gz_read multi l) = CEOF -> g_at_ctor (gz_read multi l) = false ->
     gz_stream multi l (g_payload (gz_read multi l)) (g_left (gz_read multi l)).
 
 Definition zl_eof_checked_statement : Prop :=
-  forall dict l, g_err (zl_read dict l) = CEOF ->
+  forall dict l, bytes_lt256 l -> g_err (zl_read dict l) = CEOF ->
     exists d rest r, r = inflate d rest /\ status r = Done /\ g_payload (zl_read dict l) = out r /\
       firstn 4 (skipn (N.to_nat ((bitpos r + 7) / 8)) rest) = be32 (adler32 (out r)).
 
